@@ -282,17 +282,34 @@ type prioBuild struct {
 	Entered         int           // simple: capacity of the entered channel
 	HandleExitDelay time.Duration // v1 Simple: time Handle needs to return once its context is cancelled
 	NilCtx          bool          // v1 variants: leave Opts.Ctx nil (the library must fall back to a background context)
-	ReuseInputsMap  bool          // the caller reuses its Inputs map after New (decoy channels under the same keys)
+	ReuseInputsMap  int           // > 0: the caller reuses its Inputs map after New (1 decoy channels under the same keys, 2 emptied, 3 decoys and further keys)
 }
 
 // reuseInputsMap does what a caller may do with ITS map once New has returned: it puts other
-// channels (holding items that must never come out of this discipline) under the same keys.
-func reuseInputsMap(inputs map[uint]<-chan PItem) {
-	for p := range inputs {
-		decoy := make(chan PItem, 2)
-		decoy <- PItem{P: p, Ch: -1, Seq: 0}
-		decoy <- PItem{P: p, Ch: -1, Seq: 1}
-		inputs[p] = decoy
+// channels (holding items that must never come out of this discipline) under the same keys,
+// empties the map, or adds entries for other priorities.
+func reuseInputsMap(inputs map[uint]<-chan PItem, how int) {
+	decoy := func(p uint) <-chan PItem {
+		c := make(chan PItem, 2)
+		c <- PItem{P: p, Ch: -1, Seq: 0}
+		c <- PItem{P: p, Ch: -1, Seq: 1}
+		return c
+	}
+	switch how {
+	case 1:
+		clear(inputs)
+	case 2:
+		for p := range inputs {
+			inputs[p] = decoy(p)
+		}
+		for k := uint(0); k < 3; k++ {
+			p := uint(1)<<40 + k
+			inputs[p] = decoy(p)
+		}
+	default:
+		for p := range inputs {
+			inputs[p] = decoy(p)
+		}
 	}
 }
 
@@ -312,8 +329,8 @@ func buildPrio(b prioBuild) (*prioSys, error) {
 		if err != nil {
 			return nil, err
 		}
-		if b.ReuseInputsMap {
-			reuseInputsMap(inputs)
+		if b.ReuseInputsMap > 0 {
+			reuseInputsMap(inputs, b.ReuseInputsMap-1)
 		}
 		out := d.Output()
 		s.outCap = cap(out)
@@ -362,8 +379,8 @@ func buildPrio(b prioBuild) (*prioSys, error) {
 			cancel()
 			return nil, err
 		}
-		if b.ReuseInputsMap {
-			reuseInputsMap(inputs)
+		if b.ReuseInputsMap > 0 {
+			reuseInputsMap(inputs, b.ReuseInputsMap-1)
 		}
 		s.outCap = b.OutCap
 		s.errCh = d.Err()
@@ -442,8 +459,8 @@ func buildPrio(b prioBuild) (*prioSys, error) {
 			if err != nil {
 				return nil, err
 			}
-			if b.ReuseInputsMap {
-				reuseInputsMap(inputs)
+			if b.ReuseInputsMap > 0 {
+				reuseInputsMap(inputs, b.ReuseInputsMap-1)
 			}
 			s.errCh = d.Err()
 			return s, nil
@@ -472,8 +489,8 @@ func buildPrio(b prioBuild) (*prioSys, error) {
 			cancel()
 			return nil, err
 		}
-		if b.ReuseInputsMap {
-			reuseInputsMap(inputs)
+		if b.ReuseInputsMap > 0 {
+			reuseInputsMap(inputs, b.ReuseInputsMap-1)
 		}
 		s.errCh = d.Err()
 		s.stop, s.graceful, s.cancel = d.Stop, d.GracefulStop, cancel
